@@ -7,6 +7,7 @@ package ctlog
 // identifiers, in the manner of export_test.go.
 
 import (
+	"crawshaw.io/sqlite"
 	"context"
 	"crypto/ecdsa"
 	"crypto/sha256"
@@ -102,4 +103,13 @@ func VerifCacheHash(cert []byte, isPrecert bool, ikh [32]byte) [32]byte {
 // VerifSignTreeHead signs an arbitrary tree head with the configuration's keys.
 func VerifSignTreeHead(c *Config, n int64, h [32]byte, t int64) ([]byte, error) {
 	return signTreeHead(c, treeWithTimestamp{Tree: tlog.Tree{N: n, Hash: tlog.Hash(h)}, Time: t})
+}
+
+// VerifConn exposes the SQLite connection of a lock backend (to install a tracer).
+func (b *SQLiteBackend) VerifConn() *sqlite.Conn { return b.conn }
+
+func (b *SQLiteBackend) VerifClose() error {
+	b.mu.Lock()
+	defer b.mu.Unlock()
+	return b.conn.Close()
 }
